@@ -274,4 +274,18 @@ PROPS = {
         "assumptions": COMMON_ASSUME + ["kernel model of stat/open(O_CREAT)/flock(LOCK_EX|LOCK_NB)/unlink/close (hand-written from the POSIX/Linux contract; counterexamples are replayed on the real kernel through the verif yield hooks)"],
         "outside": "NFS and other flock semantics, Windows/Plan 9 lock files, more than 3 openers",
     },
+    "C17": {
+        "quick": [
+            {"harness": "H_C17_q", "cases": list(range(7)), "scale": SC + ",initialMmapSize=1024"},
+        ],
+        "thorough": [
+            {"harness": "H_C17_t", "cases": list(range(7)), "scale": SC + ",initialMmapSize=1024"},
+        ],
+        "covers": {"quick": ["C17.done", "C17.mmap-remapped", "C17.unclean-restart"]},
+        "bounds": {"quick": "the same symbolic program (2 prefix puts + 1 symbolic step from {put, delete, compact, close+open, unclean restart with a 7-byte symbolic torn tail}) on fs.Mem, fs.OS and fs.OSMMap inside one path; Get of every key and Count after every step, segment files byte for byte at the end; initialMmapSize scaled to 1 KiB so that files outgrow their mapping (remap path)",
+                   "thorough": "3 symbolic steps"},
+        "assumptions": COMMON_ASSUME + ["fs.OS / fs.OSMMap run over the kernel model (open/pread/pwrite/read/write/lseek/ftruncate/fstat/fsync/close/unlink/rename/readdir/flock, mmap as a coherent read-only view of the inode, munmap; access to an unmapped view is a fault obligation)", "not replayed natively: the scaled mapping size cannot be applied to the real kernel's behaviour in a meaningful way for the remap path"],
+        "replay": False,
+        "outside": "the real kernel (model), Windows/Plan 9 variants, initialMmapSize at 1 GiB (remap unreachable there by any feasible file)",
+    },
 }
